@@ -313,6 +313,8 @@ def run(ctx):
     ctx.proof_step(PROPS_FILE)
     run_direct(ctx)
     run_e2e(ctx)
+    from vlib import regress
+    regress.search(ctx, {"C15"})          # the shape-agnostic search step (DESIGN.md 12.8)
     replay_findings(ctx)
     ctx.cov["rule"] = ("primitive-direct: PrimitiveTypeFromJSONSchemaType(integer, minSized) on every (min,max) pair over the type limits +-1 "
                        "(pairs), every pair of 6 lower x 6 upper spellings over 8x12 threshold values (forms; every second one in the quick tier), "
